@@ -817,7 +817,7 @@ def check_xattr_block(fs, blkno, F):
     for e in ents:
         if not e['hash']: h = 0; break
         h = ((h << 16) & M32) ^ (h >> 16) ^ e['hash']
-    if ents and bh != h: F('xattr', 'xattr block %d block hash %08x expected %08x' % (blkno, bh, h))
+    if ents and bh not in (0, h): F('xattr', 'xattr block %d block hash %08x expected %08x (or 0 = not shareable)' % (blkno, bh, h))     # the kernel treats h_hash 0 as 'do not share'; libext2fs writes 0
 
 
 def metadata_blocks(ck):
